@@ -1,6 +1,6 @@
 ENTRY = {
     "level": "proof",
-    "families": [fam("C09", 170, 1700, env={"RAYON_NUM_THREADS": "4", "TOKIO_WORKER_THREADS": "4"})],
+    "families": [fam("C09", 170, 6000, env={"RAYON_NUM_THREADS": "4", "TOKIO_WORKER_THREADS": "4"})],
     "gen_items": [],
     "rule": "one case = one sqlgen statement (strata rotating over filter / agg / join / sort_limit / subquery / distinct / setop / cte; joins of up to 3 tables incl. outer, semi, anti "
             "and cross joins, derived tables, GROUP BY with HAVING, ORDER BY / LIMIT / OFFSET) over a generated catalog of 1-3 tables (0-60 rows, NULL densities 0/10/50/100 %) written as "
